@@ -1255,6 +1255,13 @@ def check_encoders(ctx, rep):
         rep.check('C17.E', f"Parameter.from_json::{k}", k in read_by_param and k in enc, where(par.module, fj),
                   {'encoder_keys': sorted(enc), 'reader_keys': sorted(read_by_param)[:30]},
                   f"key '{k}' of the parameter record is not written by the encoder or not read by Parameter.from_json")
+    # what makes a parameter the object it was — its precision and whether it is a torch.nn.Parameter — survives the substitution of the saved value: the key is kept from
+    # the specification or copied from the checkpoint record (which carries both)
+    for k in ('dtype', 'nn'):
+        reaches = k in kept or any(dst == k for dst, _ in copied)
+        rep.check('C17.E', f"update_parameters::{k}-survives-the-substitution", reaches, where(um, up), {'kept': sorted(kept), 'copied': sorted(d for d, _ in copied)},
+                  f"update_parameters neither keeps '{k}' of the specification nor copies it from the checkpoint: the parameter is rebuilt without it "
+                  + ("(an nn.Parameter comes back as a plain tensor: modules that register it no longer see it)" if k == 'nn' else "(the saved values are read at the default precision)"))
     for k in sorted(kept):
         if k in ('id', 'type'):
             continue
